@@ -315,6 +315,7 @@ func successMatrix(e *env) []func() {
 								r.Violate("exit0-incomplete:encrypt:"+outMode, fmt.Sprintf("%s: exit 0 but %v", desc, verr), map[string]any{"argv": argv})
 							} else {
 								r.Count("complete_results_with_exit_0", 1)
+								r.SampleN("enc-ok", 2, map[string]any{"case": desc, "argv": argvString(argv[1:]), "exit": res.Exit, "output_bytes": len(got), "oracle": "reference implementation decrypts the output to the input"})
 							}
 						})
 					}
